@@ -4,6 +4,7 @@ import Poulpy.Lemmas.CoreOpsNorm
 import Poulpy.Lemmas.CoreOpsShift
 import Poulpy.Lemmas.CoreOpsShift2
 import Poulpy.Lemmas.CoreOpsGgsw
+import Poulpy.Lemmas.CoreOpsAccum
 import Poulpy.Props.C08
 
 /-!
@@ -426,8 +427,8 @@ The relation `2^(b·as)·X = 2^k·2^(b·rs)·Y + e + q·2^(b·rs+b·as)` reads `
 `|e| ≤ u·2^(b·as)` is `u` units of the result's last limb. -/
 
 /-- head-room instances used by the examples (radix `2^4`) -/
-theorem hr4 : NormL.HeadRoom 64 4 0 (2 ^ 62) := ⟨by norm_num, by norm_num, by norm_num, by norm_num, by norm_num⟩
-theorem hr4b : NormL.HeadRoom 64 4 0 (2 ^ 60) := ⟨by norm_num, by norm_num, by norm_num, by norm_num, by norm_num⟩
+def hr4 : NormL.HeadRoom 64 4 0 (2 ^ 62) := ⟨by norm_num, by norm_num, by norm_num, by norm_num, by norm_num⟩
+def hr4b : NormL.HeadRoom 64 4 0 (2 ^ 60) := ⟨by norm_num, by norm_num, by norm_num, by norm_num, by norm_num⟩
 
 /-- tolerance of one left shift: exact when the shifted operand fits the result -/
 def lshTol (b rs as k : Nat) : Int := if b * as ≤ b * rs + k then 0 else 2 ^ (b * as)
@@ -790,6 +791,142 @@ example : ∃ p', run exPool exProg = .ok p' ∧
 
 example : step exPool (.rotate (-3) 1 2) ≠ .panic "assert" ∧ exactOp (.rotate (-3) 1 2) = true := by
   constructor <;> decide +kernel
+
+/-! ## programs with shifts: the accumulated error, by induction on the op list
+
+A chain of in-place operations `us : List UOp` (negate, `X^k`, `X^k − 1`, `rsh k`, `lsh k`, normalise) on
+pool entry `r`, run by the interpreter `run`.  `TRun us` is the exact ring map of the chain on
+plaintexts; `accRun P sn ⟨0,0,m₀,0⟩ us = ⟨a, b, m, U⟩` accumulates the scalings and the tolerance:
+the final phase `X` and the initial phase `Y` satisfy, on every coefficient,
+`X·2^a = (TRun us Y)·2^b + e + q·2^m` with `|e| ≤ U` — each right shift contributes `(1 + Σ‖sᵢ‖₁)` units of
+the last limb (scaled by the later operations), `X^k − 1` doubles what is already there, everything
+else contributes nothing. -/
+
+/-- one more operation of the chain -/
+theorem chain_step {N : Nat} (s : List Poly) (r : Nat) {H : Int} (u : UOp) (p p' : Pool) (c : GLWE) (acc : Acc) (Y : Poly)
+    (hN : p.N = N) (hc : p.objs[r]? = some (Obj.ct c)) (hw : GWF N c) (hh : NormL.HeadRoom 64 c.base2k 0 H)
+    (hsm : GSmall c) (hbd : GBound H c) (hY : Y.length = N)
+    (hrel : PRel N (valP c.base2k N (phase s c)) acc.a Y acc.b acc.m acc.U)
+    (hstep : step p (u.toOp r) = .ok p') :
+    ∃ c', p'.objs[r]? = some (Obj.ct c') ∧ p'.N = N ∧ GWF N c' ∧ c'.base2k = c.base2k ∧ c'.size = c.size ∧ c'.rank = c.rank ∧
+      PRel N (valP c.base2k N (phase s c')) (accStep (c.base2k * c.size) (snorm (min c.rank s.length) s) acc u).a (u.T Y)
+        (accStep (c.base2k * c.size) (snorm (min c.rank s.length) s) acc u).b
+        (accStep (c.base2k * c.size) (snorm (min c.rank s.length) s) acc u).m
+        (accStep (c.base2k * c.size) (snorm (min c.rank s.length) s) acc u).U := by
+  have hX : (valP c.base2k N (phase s c)).length = N := by simp
+  have hlim : LimbsN N (phase s c) := (phase_wf hw s).2
+  subst hN
+  cases u with
+  | neg =>
+    obtain ⟨res, x, g1, h4, rfl⟩ := un_inv hstep
+    rw [hc] at g1; cases g1
+    obtain ⟨r', e, sm, w, sz, ph⟩ := negateAssign_ok hw hsm
+    rw [h4] at e; cases e
+    refine ⟨x, put_same _ _ _ _ hc, rfl, w, sm.1, sz, sm.rank, ?_⟩
+    rw [ph s, valP_map (linT_neg _) _ _ hlim]
+    exact hrel.neg
+  | rot k =>
+    obtain ⟨res, x, g1, h4, rfl⟩ := un_inv hstep
+    rw [hc] at g1; cases g1
+    unfold glweRotateAssignS at h4
+    obtain ⟨_, h4⟩ := checkS_ok h4
+    obtain ⟨r', e, sm, w, sz, ph⟩ := rotateAssign_ok k hw hsm
+    rw [h4] at e; cases e
+    refine ⟨x, put_same _ _ _ _ hc, rfl, w, sm.1, sz, sm.rank, ?_⟩
+    rw [ph s, valP_map (linT_rot _ k) _ _ hlim]
+    exact hrel.rot k hX hY
+  | mxp k =>
+    obtain ⟨res, x, g1, h4, rfl⟩ := un_inv hstep
+    rw [hc] at g1; cases g1
+    unfold glweMulXpMinusOneAssignS at h4
+    obtain ⟨_, h4⟩ := check_ok h4
+    obtain ⟨_, h4⟩ := checkS_ok h4
+    obtain ⟨r', e, sm, w, sz, ph⟩ := mulXpMinusOneAssign_ok k hw hsm
+    rw [h4] at e; cases e
+    refine ⟨x, put_same _ _ _ _ hc, rfl, w, sm.1, sz, sm.rank, ?_⟩
+    rw [ph s, valP_map (linT_mxp _ k) _ _ hlim]
+    exact hrel.mxp k hX hY
+  | rsh k =>
+    obtain ⟨res, x, g1, h4, rfl⟩ := un_inv hstep
+    rw [hc] at g1; cases g1
+    unfold glweRshS at h4
+    obtain ⟨_, h4⟩ := checkS_ok h4
+    obtain ⟨r', e, sm, w, sz, _, ph⟩ := rsh_phase hw hh hbd p.scr k
+    rw [h4] at e; cases e
+    refine ⟨x, put_same _ _ _ _ hc, rfl, w, sm.1, sz, sm.rank, ?_⟩
+    exact (PRel_of_val c.base2k _ _ _ _ _ _ (ph s)).trans hrel
+  | lsh k =>
+    obtain ⟨res, x, g1, h4, rfl⟩ := un_inv hstep
+    rw [hc] at g1; cases g1
+    unfold glweLshAssignS at h4
+    obtain ⟨_, h4⟩ := checkS_ok h4
+    obtain ⟨r', e, sm, w, sz, ph⟩ := lsh_assign_phase hw hh hbd k
+    rw [h4] at e; cases e
+    refine ⟨x, put_same _ _ _ _ hc, rfl, w, sm.1, sz, sm.rank, ?_⟩
+    refine (PRel_of_val c.base2k _ _ (c.base2k * c.size) (k + c.base2k * c.size) (c.base2k * c.size + c.base2k * c.size) 0
+      (fun t ht => ?_)).trans hrel
+    obtain ⟨q, hq⟩ := ph s t ht
+    exact ⟨q, 0, by rw [pow_add]; linear_combination hq, by simp⟩
+  | norm =>
+    obtain ⟨res, x, g1, h4, rfl⟩ := un_inv hstep
+    rw [hc] at g1; cases g1
+    unfold glweNormalizeAssignS at h4
+    obtain ⟨_, h4⟩ := checkS_ok h4
+    obtain ⟨r', e, sm, w, sz, ph⟩ := normalize_assign_phase hw hh hbd
+    rw [h4] at e; cases e
+    refine ⟨x, put_same _ _ _ _ hc, rfl, w, sm.1, sz, sm.rank, ?_⟩
+    refine (PRel_of_val c.base2k _ _ (c.base2k * c.size) (c.base2k * c.size) (c.base2k * c.size + c.base2k * c.size) 0
+      (fun t ht => ?_)).trans hrel
+    obtain ⟨q, hq⟩ := ph s t ht
+    exact ⟨q, 0, by linear_combination hq, by simp⟩
+
+/-- **accumulated error of a program**, by induction on the op list -/
+theorem program_accumulated_error {N : Nat} (s : List Poly) (r : Nat) {H : Int} :
+    ∀ (us : List UOp) (p p' : Pool) (c : GLWE) (acc : Acc) (Y : Poly),
+    p.N = N → p.objs[r]? = some (Obj.ct c) → GWF N c → NormL.HeadRoom 64 c.base2k 0 H → Y.length = N →
+    PRel N (valP c.base2k N (phase s c)) acc.a Y acc.b acc.m acc.U →
+    HRun H r p (us.map (UOp.toOp r)) →
+    run p (us.map (UOp.toOp r)) = .ok p' →
+    ∃ c', p'.objs[r]? = some (Obj.ct c') ∧ GWF N c' ∧ c'.size = c.size ∧ c'.rank = c.rank ∧
+      PRel N (valP c.base2k N (phase s c')) (accRun (c.base2k * c.size) (snorm (min c.rank s.length) s) acc us).a (TRun us Y)
+        (accRun (c.base2k * c.size) (snorm (min c.rank s.length) s) acc us).b
+        (accRun (c.base2k * c.size) (snorm (min c.rank s.length) s) acc us).m
+        (accRun (c.base2k * c.size) (snorm (min c.rank s.length) s) acc us).U := by
+  intro us
+  induction us with
+  | nil =>
+    intro p p' c acc Y _ hc hw _ _ hrel _ hrun
+    cases hrun
+    exact ⟨c, hc, hw, rfl, rfl, hrel⟩
+  | cons u rest ih =>
+    intro p p' c acc Y hN hc hw hh hY hrel hhr hrun
+    obtain ⟨p1, h1, h2⟩ := bind_ok hrun
+    obtain ⟨hsb, hnext⟩ := hhr
+    obtain ⟨c1, g1, gN, w1, b1, z1, k1, rel1⟩ := chain_step s r u p p1 c acc Y hN hc hw hh (hsb c hc).1 (hsb c hc).2 hY hrel h1
+    have hh1 : NormL.HeadRoom 64 c1.base2k 0 H := by rw [b1]; exact hh
+    obtain ⟨c', g', w', z', k', rel'⟩ := ih p1 p' c1 _ (u.T Y) gN g1 w1 hh1 (T_length u Y hY)
+      (by rw [b1]; exact rel1) (hnext p1 h1) h2
+    refine ⟨c', g', w', z'.trans z1, k'.trans k1, ?_⟩
+    rw [b1, z1, k1] at rel'
+    exact rel'
+
+/-- radix `2^4`, one limb, rank 1: negate, shift right by 3 bits, multiply by `X^5 − 1`, shift right by 1, normalise -/
+def exChain : List UOp := [.neg, .rsh 3, .mxp 5, .rsh 1, .norm]
+def exChainPool : Pool := { N := 2, scr := 7, objs := [.ct exB], sb := 48 }
+
+example : ∃ p', run exChainPool (exChain.map (UOp.toOp 0)) = .ok p' ∧ ∃ c', p'.objs[0]? = some (Obj.ct c') ∧
+    ∀ s : List Poly,
+      PRel 2 (valP 4 2 (phase s c')) (accRun 4 (snorm (min 1 s.length) s) ⟨0, 0, 8, 0⟩ exChain).a (TRun exChain (valP 4 2 (phase s exB)))
+        (accRun 4 (snorm (min 1 s.length) s) ⟨0, 0, 8, 0⟩ exChain).b (accRun 4 (snorm (min 1 s.length) s) ⟨0, 0, 8, 0⟩ exChain).m
+        (accRun 4 (snorm (min 1 s.length) s) ⟨0, 0, 8, 0⟩ exChain).U := by
+  obtain ⟨p', hp'⟩ : ∃ p', run exChainPool (exChain.map (UOp.toOp 0)) = .ok p' := exists_of_isOk (by decide +kernel)
+  have key := fun s => program_accumulated_error (N := 2) s 0 (H := 2 ^ 60) exChain exChainPool p' exB ⟨0, 0, 8, 0⟩
+    (valP 4 2 (phase s exB)) rfl rfl (by decide) hr4b (by simp) (PRel.refl _ _ _) (hrun_of_B _ _ _ _ (by decide +kernel)) hp'
+  obtain ⟨c', g, _, _, _, _⟩ := key []
+  refine ⟨p', hp', c', g, fun s => ?_⟩
+  obtain ⟨c'', g'', _, _, _, rel⟩ := key s
+  rw [g] at g''; cases g''
+  exact rel
 
 /-! ## operands of different radices are rejected
 
